@@ -138,6 +138,33 @@ func (e *Engine) checkAllRaw(s *Sys) *Violation {
 		return e.v(s, "alive-count", "Stats().Entities.Used=%d, model has %d alive", used, len(m.Alive))
 	}
 	st := w.Stats()
+	if st.Entities.Total-st.Entities.Recycled != st.Entities.Used || st.Entities.Recycled < 0 || st.Entities.Capacity < st.Entities.Total {
+		return e.v(s, "alive-count", "Stats().Entities inconsistent: used %d, total %d, recycled %d, capacity %d", st.Entities.Used, st.Entities.Total, st.Entities.Recycled, st.Entities.Capacity)
+	}
+	if st.ComponentCount != len(s.regOrder) {
+		return e.v(s, "registry", "Stats().ComponentCount=%d, %d types registered", st.ComponentCount, len(s.regOrder))
+	}
+	if st.Locked != e.locked() {
+		return e.v(s, "lock-ledger", "Stats().Locked=%v with %d queries open", st.Locked, len(e.Open))
+	}
+	nreg := 0
+	for _, r := range e.Reg {
+		if r {
+			nreg++
+		}
+	}
+	if st.CachedFilters != nreg {
+		return e.v(s, "cache-diff", "Stats().CachedFilters=%d, %d filters are registered", st.CachedFilters, nreg)
+	}
+	rows := 0
+	for i := range st.Nodes {
+		if st.Nodes[i].IsActive {
+			rows += st.Nodes[i].Size
+		}
+	}
+	if rows != len(m.Alive) {
+		return e.v(s, "alive-count", "Stats(): tables hold %d entities in total, %d are alive", rows, len(m.Alive))
+	}
 	for i := range st.Nodes {
 		n := &st.Nodes[i]
 		if n.ActiveArchetypeCount > n.ArchetypeCount || n.ActiveArchetypeCount < 0 {
